@@ -39,8 +39,8 @@ for _name, _wi, _sn in (("no_interactions", False, False), ("explicit_interactio
         schema=schema, make_env=_covout_env(_wi, _sn), call_stubs={"np.random.randn": "DRAW", "self.update_outcomes": _mark_refreshed},
         ensures=[("C17.every_valid_covout_can_be_sampled", "True")] + ([("C17.no_uncertainty_leaves_outcomes_unchanged", "self.progs['p0'] == p0_before")] if _sn else [("C17.outcome_is_perturbed_by_sigma_times_draw", "self.progs['p0'] == p0_before + self.sigma * draw"),
                                                       # the model reads the CACHED outcomes (get_outcome): a perturbed value that is not followed by a refresh is never used
-                                                      ("C17.outcome_cache_is_refreshed_after_the_perturbation", "REFRESHED")]),
-        raises={}, defined_props=["C17"], raises_props=["C17"], with_interactions=_wi, sigma_none=_sn)
+                                                      ("C17+C12.outcome_cache_is_refreshed_after_the_perturbation", "REFRESHED")]),
+        raises={}, defined_props=["C17", "C12"], raises_props=["C17"], with_interactions=_wi, sigma_none=_sn)
 
 
 def _replay_covout(model, contract):
